@@ -117,3 +117,11 @@ def histkey(case, got):
 
 def python_snippet(case):
     return "from sugar import BioSeq; s=BioSeq(%r); print(s.%s)" % (case['s'], {'complement': 'complement()', 'rc': 'rc()', 'rev_complement': 'complement().reverse()', 'rc_rc': 'rc().rc()', 'gc': 'gc', 'reverse': 'reverse()'}[case['op']])
+
+LEVEL_TEXT = ('Machine-checked Coq theorems for every string: complement is the per-symbol IUPAC/Watson-Crick map on the regenerated '
+              'COMPLEMENT tables (finite table theorem re-checked against /repo on every run), complement and rc are involutions on the '
+              '17-symbol alphabet, rc = reverse;complement = complement;reverse, length and GC counts preserved, RNA identical up to U/T; '
+              'the hand-written control flow (U branch, reverse, basket map) is tied to sugar by differential testing on every run.')
+LEVEL_NOTE = ('Trusted: Coq kernel/vm_compute, tools/gen_data.py (tables), the correspondence harness, CPython str.translate/replace. '
+              'Modelled rather than verified: BioSeq.complement/reverse/rc/gc and the basket maps; Python str limited to Latin-1. '
+              'All theorems closed under the global context (no axioms).')
